@@ -5,6 +5,8 @@ package props
 import (
 	"fmt"
 	"math/big"
+	"runtime"
+	"sync"
 	"testing"
 
 	gfr "github.com/consensys/gnark-crypto/ecc/bls12-381/fr"
@@ -100,6 +102,8 @@ func refPointLite(seed uint64) *big.Int {
 	return x
 }
 
+var c17Shared gfr.Element
+
 var halfPc17 = new(big.Int).Rsh(new(big.Int).Sub(ref.P, big.NewInt(1)), 1)
 
 func evalC17(c c17Case, rec *hx.Rec) error {
@@ -133,7 +137,12 @@ func evalC17(c c17Case, rec *hx.Rec) error {
 		}
 	} else {
 		var pt *bandersnatch.PointAffine
-		if perr := hx.Try(func() { pt = bandersnatch.GetPointFromX(&fe, c.Big) }); perr != nil {
+		arg := &fe
+		if c.Seed%2 == 0 { // the caller reuses one variable for successive abscissas
+			c17Shared = fe
+			arg = &c17Shared
+		}
+		if perr := hx.Try(func() { pt = bandersnatch.GetPointFromX(arg, c.Big) }); perr != nil {
 			return fmt.Errorf("GetPointFromX(%s): %w", v.Text(16), perr)
 		}
 		want := ref.YFromX(v) // larger root or nil
@@ -215,9 +224,54 @@ func genC17(t *rapid.T) c17Case {
 
 var c17Part = hx.NewPart("C17", "sqrt", genC17, evalC17)
 
+// c17FirstUse: the very first square roots of the process are taken concurrently (tables that are built lazily
+// must be complete before any caller uses them). Run before anything else in the process touches the routine.
+func c17FirstUse(s *hx.Session) {
+	var wg sync.WaitGroup
+	type res struct {
+		v    *big.Int
+		root *fp.Element
+	}
+	out := make([]res, 16)
+	start := make(chan struct{})
+	for g := 0; g < 16; g++ {
+		wg.Add(1)
+		go func(g int) {
+			defer wg.Done()
+			w := big.NewInt(int64(1000003*(g+1) + 7*hx.Shard()))
+			v := new(big.Int).Mul(w, w) // a known square
+			var fe gfr.Element
+			fe.SetBigInt(v)
+			<-start
+			for i := 0; i < g%4; i++ {
+				runtime.Gosched()
+			}
+			out[g] = res{v, fp.SqrtPrecomp(&fe)}
+		}(g)
+	}
+	close(start)
+	wg.Wait()
+	s.Rec.Eval(16)
+	for g, r := range out {
+		ok := r.root != nil
+		if ok {
+			var rb big.Int
+			r.root.BigInt(&rb)
+			sq := new(big.Int).Mul(&rb, &rb)
+			ok = sq.Mod(sq, ref.P).Cmp(new(big.Int).Mod(r.v, ref.P)) == 0
+		}
+		if !ok {
+			s.Violation("sqrt", c17Case{Mode: "sqrt", Kind: "const", Val: hx.HexBig(r.v)}, fmt.Errorf("concurrent first use: SqrtPrecomp(%s) (a square) returned a wrong root or nil in goroutine %d", r.v.Text(16), g))
+			return
+		}
+	}
+	s.Rec.Label("concurrent_first_use_ok")
+}
+
 func TestC17(t *testing.T) {
 	s := hx.Start(t, "C17")
 	defer s.Finish()
+	s.Guard(func() { c17FirstUse(s) })
 	// reference-side sanity of the constants used by the generator
 	s.Guard(func() {
 		if new(big.Int).Exp(dyadicRoot, new(big.Int).Lsh(big.NewInt(1), 31), ref.P).Cmp(new(big.Int).Sub(ref.P, big.NewInt(1))) != 0 {
